@@ -228,7 +228,7 @@ class Gen:
             # instance prototype with keyword defaults for some plain int fields
             inst = {}
             for sf in sub["fields"]:
-                if sf["t"] == "int" and not any(k in sf for k in ("rep", "opt")) and rng.random() < 0.5:
+                if sf["t"] == "int" and not any(k in sf for k in ("rep", "opt", "describe")) and rng.random() < 0.5:
                     lo, hi = int_range(sf["n"], sf["signed"])
                     inst[sf["name"]] = rng.choice([1, 5, hi])
             f["inst"] = inst
